@@ -564,6 +564,22 @@ func modeC04(e *Env) {
 			RunStreamScenario(e.Rec, &StreamScenario{ID: id, Fam: "c04", Log: l, Start: start, ServerID: 11,
 				Attempts: []AttemptPlan{fp, defaultAttempt()}, Note: "single"})
 		}
+		// a failure after some progress, then an attempt that ends before its dump starts (master unreachable, handshake
+		// refused, checksum announcement rejected, connection lost right after it), then a clean one
+		for ci, cf := range []string{"handshake_close", "handshake_err", "set_err", "set_then_reset", "dead"} {
+			if !e.Thorough() && (li+ci)%2 == 1 {
+				continue
+			}
+			c := defaultAttempt()
+			if cf == "dead" {
+				c.Dead = true
+			} else {
+				c.ConnFault = cf
+			}
+			id++
+			RunStreamScenario(e.Rec, &StreamScenario{ID: id, Fam: "c04", Log: l, Start: start, ServerID: 11,
+				Attempts: []AttemptPlan{plans[e.R.Intn(len(plans))], c, defaultAttempt()}, Note: "connect-failure-between"})
+		}
 		// sequences of up to 3 failed attempts, then a clean one
 		nseq := e.N(6, 60)
 		for s := 0; s < nseq; s++ {
@@ -1379,6 +1395,14 @@ func replaySessions(e *Env, fam string, keep func(i int, hist []interface{}) boo
 			a.HookTrace = true
 			switch h["fault"].(string) {
 			case "none":
+			case "connect":
+				// the attempt ends before its dump starts: every way that can happen, in turn
+				kinds := []string{"handshake_close", "handshake_err", "set_err", "set_then_reset", "dead"}
+				if k := kinds[(i+j)%len(kinds)]; k == "dead" {
+					a.Dead = true
+				} else {
+					a.ConnFault = k
+				}
 			case "handler":
 				a.HandlerErrAt = int(h["k"].(float64))
 			case "mapper-err":
